@@ -302,6 +302,11 @@ impl Checker for OwnChecker {
                 ("position.CreateFor(C)", FuOp::CreatePos { u: 0, lp: 0, amount: 5, dur: DAY, id: None, recv: Some(C) }, Box::new(|s| s == C || s == 4)),
                 // the delegate's own entry points: a locked deposit into C's position through the pool manager is C's alone
                 ("pool.ProvideLiquidity(lock into u-x)", FuOp::ProvideLock { u: 0, lp: 0, amount: 5000, dur: DAY, lock_id: Some("u-x".into()) }, Box::new(|s| s == C)),
+                // ... nor under the name its owner typed (the farm manager stores it as u-x): that is a create with a taken name
+                ("pool.ProvideLiquidity(lock into x)", FuOp::ProvideLock { u: 0, lp: 0, amount: 5000, dur: DAY, lock_id: Some("x".into()) }, Box::new(|_| false)),
+                ("pool.ProvideLiquidity(single asset, lock into x)", FuOp::ProvideLockSingle { u: 0, lp: 0, amount: 10_001, dur: DAY, lock_id: Some("x".into()) }, Box::new(|_| false)),
+                ("position.Close(x)", FuOp::ClosePos { u: 0, id: "x".into(), partial: None }, Box::new(|_| false)),
+                ("position.Withdraw(x, emergency)", FuOp::WithdrawPos { u: 0, id: "x".into(), emergency: Some(true) }, Box::new(|_| false)),
                 ("pool.ProvideLiquidity(single asset, lock into u-x)", FuOp::ProvideLockSingle { u: 0, lp: 0, amount: 10_001, dur: DAY, lock_id: Some("u-x".into()) }, Box::new(|s| s == C)),
             ];
             for (label, op, entitled) in cases {
